@@ -20,6 +20,7 @@ func init() {
 			"wide scenario: every NAL type 1-23 x NRI 0-3 alone and after an SPS/PPS pair; units of 300, 257*(MTU-2)+1 (more than 256 fragments), 70000 bytes for MTU {5,100,1200}; SPS/PPS of {6,255,256,257,700,32766} x {6,255,256,300,32765} bytes at MTU 1200 and 65535; all sequences of 5 (thorough: 6) units over {slice 2B, slice MTU+1, SPS+PPS pair, lone SPS, lone PPS} split over three calls",
 			"unit bodies: EVERY body of 1-7 bytes (thorough: 8) over {00,01,03,FF} that is legal inside a NAL unit (no 00 00 00 / 00 00 01, no trailing 00) as a type-5 unit between two other units, 3- and 4-byte start codes, MTU {5,100}",
 			"second instance: in the wide scenario every case also runs with an unrelated second H264Payloader (holding an SPS, fed fragmented units in between) and H264Packet (holding an unfinished FU-A unit) whose calls are interleaved with those of the instances under test",
+			"runs of 60 calls on one payloader and one depacketizer, cycling through a pattern of 2, 3, 5 or 7 access units (SPS+PPS+IDR, a slice of MTU+1 bytes, a small slice, an AUD plus a slice, SPS+PPS alone, two small slices, a slice of 3*MTU bytes) for MTU {8,100,1200}",
 			"decoder side: F bit 0, FU-A trains of 2-4 fragments with every split point of units of up to 8 bytes",
 		},
 		Scenarios: []mc.Scenario{
@@ -28,6 +29,7 @@ func init() {
 			{Name: "all-types-large-units-long-sequences", Tiers: "qt", ShardDepth: 3, Run: c10Wide},
 			{Name: "reference-encoder-to-depacketizer", Tiers: "qt", ShardDepth: 3, Run: c10Decoder},
 			{Name: "unit-bodies-with-zero-and-one-bytes", Tiers: "qt", ShardDepth: 3, Run: c10Bodies},
+			{Name: "runs-of-60-calls", Tiers: "qt", ShardDepth: 3, Run: c10Run60},
 		},
 	})
 }
@@ -158,7 +160,11 @@ func c10Core(c *mc.Ctx, mtu int, disableStapA, avc bool, raw [][]byte, codes []i
 	}
 	calls = append(calls, raw[split:])
 	callCodes = append(callCodes, codes[split:])
+	c10CoreCalls(c, mtu, disableStapA, avc, calls, callCodes)
+}
 
+// c10CoreCalls drives one payloader and one depacketizer through the given calls.
+func c10CoreCalls(c *mc.Ctx, mtu int, disableStapA, avc bool, calls [][][]byte, callCodes [][]int) {
 	desc := func() string {
 		s := fmt.Sprintf("mtu=%d DisableStapA=%v AVC=%v calls:", mtu, disableStapA, avc)
 		for ci, call := range calls {
@@ -531,4 +537,45 @@ func c10Bodies(c *mc.Ctx) {
 	unit := append([]byte{0x65}, body...)
 	raw := [][]byte{ref.H264Unit(1, 2, 3, 7), unit, ref.H264Unit(1, 2, 2, 0xEE)}
 	c10Core(c, mtu, false, c.Bool(), raw, []int{4, code, 7 - code}, 0)
+}
+
+// c10Run60: 60 access units through one payloader and one depacketizer, cycling through a
+// pattern of 2, 3, 5 or 7 different ones: state that only matters after many calls.
+func c10Run60(c *mc.Ctx) {
+	mtu := mc.From(c, []int{8, 100, 1200})
+	disableStapA := c.Bool()
+	avc := c.Bool()
+	period := mc.From(c, []int{2, 3, 5, 7})
+	u := func(t uint8, n int, seed int) []byte { return ref.H264Unit(t, uint8(1+seed%3), n, byte(seed*13)) }
+	var calls [][][]byte
+	var codes [][]int
+	for i := 0; i < 60; i++ {
+		var au [][]byte
+		switch i % period {
+		case 0:
+			au = [][]byte{u(7, 5, i), u(8, 4, i), u(5, 9, i)}
+		case 1:
+			au = [][]byte{u(1, mtu+1, i)}
+		case 2:
+			au = [][]byte{u(1, 3, i)}
+		case 3:
+			au = [][]byte{u(9, 2, i), u(1, 6, i)}
+		case 4:
+			au = [][]byte{u(7, 6, i), u(8, 3, i)}
+		case 5:
+			au = [][]byte{u(1, 2, i), u(1, 4, i)}
+		default:
+			au = [][]byte{u(5, 3*mtu, i)}
+		}
+		cc := make([]int, len(au))
+		for k := range cc {
+			cc[k] = 3 + (i+k)%2
+		}
+		calls = append(calls, au)
+		codes = append(codes, cc)
+	}
+	// a last unit releases parameter sets that are still held back
+	calls = append(calls, [][]byte{ref.H264Unit(1, 2, 2, 0xEE)})
+	codes = append(codes, []int{4})
+	c10CoreCalls(c, mtu, disableStapA, avc, calls, codes)
 }
